@@ -128,6 +128,18 @@ theorem wiring_frozen :
                    ("layer", "total_timeout"), ("with_state", "state")] := by
   decide
 
+/-- The one rejection and how keys are compared, as the source has them now: `unauthorized()` is
+`401 unauthorized "invalid or missing API key"`; it is the only error `authorize` (with its private
+helpers inlined) constructs and `Admin` / `Database` the only principals it answers;
+`ApiKeyHash::verify` hashes the presented key and compares digests with `constant_time_eq`; the
+unbound branch burns `TIMING_DUMMY.verify` behind `black_box`. (Timing itself is not modelled.) -/
+theorem rejection_constants_frozen :
+    unauthorizedStatus = 401 ∧ unauthorizedCode = "unauthorized" ∧
+    unauthorizedMessage = "invalid or missing API key" ∧
+    authorizeOnlyErrorIsUnauthorized = true ∧ authorizePrincipals = ["Admin", "Database"] ∧
+    verifyIsConstantTime = true ∧ timingDummyBurned = true := by
+  decide
+
 /-! ## The authorisation rules -/
 
 /-- A `Database` principal is produced exactly when an admin key is configured, the scope is a
